@@ -288,6 +288,10 @@ class Effects:
                     fn = x.func
                     q = self.prog.qualify(f.module, fn, f)
                     if isinstance(fn, ast.Attribute) and q is None:
+                        flagged = fn.attr == "byteswap" and ((x.args and isinstance(x.args[0], ast.Constant) and x.args[0].value is True) or any(
+                            k.arg == "inplace" and isinstance(k.value, ast.Constant) and k.value.value is True for k in x.keywords))
+                        if flagged:
+                            record(n, st, self.roots(f, fn.value, env), flags_now, ".byteswap(inplace=True)")
                         if fn.attr in INPLACE_METHODS or (fn.attr.endswith("_") and not fn.attr.startswith("_") and len(fn.attr) > 2):
                             record(n, st, self.roots(f, fn.value, env), flags_now, "." + fn.attr + "()")
                     if q in INPLACE_FUNCS_ARG0 and x.args:
